@@ -114,7 +114,7 @@ Qed.
 
 Lemma lstep_inv : forall s o, Inv s -> Inv (lstep s o).
 Proof.
-  intros s o H. destruct o as [| |i|i|i|i|i]; cbn [lstep].
+  intros s o H. destruct o as [| |i|i|i|i|i|i]; cbn [lstep].
   - (* emit *)
     destruct H as (A & B & C & D). unfold Inv, pending. cbn [l_buf l_ls l_next l_log].
     assert (F : ~ In (l_next s) (pending s)) by (intro X; apply C in X; lia).
@@ -136,7 +136,7 @@ Proof.
   - destruct (nth i (l_ls s) LDead) eqn:E; try assumption.
     apply idle_inv; [assumption | rewrite E; reflexivity | reflexivity].
   - (* OK *)
-    destruct (nth i (l_ls s) LDead) as [| |ev| |] eqn:E; try assumption.
+    destruct (nth i (l_ls s) LDead) as [| |ev| | |] eqn:E; try assumption.
     destruct H as (A & B & C & D).
     pose proof (busy_set_from_busy (l_ls s) i ev LAck E eq_refl) as P.
     assert (P2 : Permutation (pending s) (ev :: l_buf s ++ busy_ids (set_nth (l_ls s) i LAck))).
@@ -156,6 +156,8 @@ Proof.
   - destruct (nth i (l_ls s) LDead) eqn:E; try assumption;
       try (apply idle_inv; [assumption | rewrite E; reflexivity | reflexivity]).
     apply requeue_inv; [assumption | exact E | reflexivity].
+  - destruct (nth i (l_ls s) LDead) eqn:E; try assumption.
+    apply idle_inv; [assumption | rewrite E; reflexivity | reflexivity].
 Qed.
 
 Lemma busy_ids_repeat : forall n, busy_ids (repeat LAck n) = [].
@@ -206,10 +208,11 @@ Qed.
 
 Lemma lstep_ord : forall s o, quiet o = true -> Ord s -> Ord (lstep s o).
 Proof.
-  intros s o Hq H. destruct o as [| |i|i|i|i|i]; try discriminate; cbn [lstep].
+  intros s o Hq H. destruct o as [| |i|i|i|i|i|i]; try discriminate; cbn [lstep].
   - destruct H as [k [H1 H2]]. exists (S k). cbn [l_next l_log l_buf]. split; [lia|].
     rewrite app_assoc, H2, H1. reflexivity.
   - apply dispatch_loop_ord. assumption.
+  - destruct (nth i (l_ls s) LDead); assumption.
   - destruct (nth i (l_ls s) LDead); assumption.
   - destruct (nth i (l_ls s) LDead); assumption.
 Qed.
